@@ -17,6 +17,10 @@ Inductive filt :=
 | FKeyword (ws : list bytes) | FApostrophe | FElision (arts : list bytes)
 | FReverse (marks : list Z).       (* marks = the runes of the case that are Mn/Me/Mc *)
 
+(* one item of a batch case (constructors rather than tuples: the case files elaborate faster) *)
+Inductive contract_item := CI (len : Z) (ts : list token).
+Inductive hl_item := HLI (style size : Z) (orig : bytes) (locs : list (Z * Z)) (impl : option bytes).
+
 Inductive case :=
 (* utf8.DecodeRune p, utf8.DecodeLastRune p, utf8.RuneCount p, and for the first rune r of p:
    utf8.RuneLen r and utf8.AppendRune(nil, r) *)
@@ -40,6 +44,14 @@ Inductive case :=
 (* Index.Search with highlighting: stored value, the hit's locations of the field, the fragment
    returned (if any).  style 0 = html, 1 = ansi *)
 | CHighlight (style size : Z) (orig : bytes) (locs : list (Z * Z)) (impl : option bytes)
+(* batches.  A component run over a systematic word enumeration (thousands to millions of words
+   per case): the DISTINCT observed output shapes (text length, offsets and positions of the
+   output stream), each judged exactly as a CContract case of that kind *)
+| CContractMany (kind : Z) (items : list contract_item)
+(* highlight calls that overlapped in time on the shared registered highlighters: every DISTINCT
+   (stored value, locations, fragment) observed by any goroutine, each judged exactly as a
+   CHighlight case — against the stored value and locations of THAT hit *)
+| CHighlightMany (items : list hl_item)
 (* the implementation ran to completion under the watchdog; nothing else is claimed
    (components whose output has no offsets to check: char filters; highlighting when the
    analyzer changes the text length) *)
@@ -244,13 +256,20 @@ Definition check_direct (size : Z) (orig : bytes) (locs frags : list (Z * Z))
         (map (fun f => format_ansi ansi_color ansi_reset orig f mm) frs) (map Some ansi)
   end.
 
+Definition check_contract (kind len : Z) (ts : list token) : bool :=
+  if kind =? 0 then valid_stream len ts else ordered_offsets ts.
+
+Definition check_contract_item (kind : Z) (it : contract_item) : bool :=
+  let '(CI len ts) := it in check_contract kind len ts.
+Definition check_highlight_item (it : hl_item) : bool :=
+  let '(HLI style size orig locs impl) := it in check_highlight style size orig locs impl.
+
 Definition check (c : case) : bool :=
   match c with
   | CDecode p r w lr lw rc rl enc =>
       pairZ_eqb (decode_rune p) (r, w) && pairZ_eqb (decode_last_rune p) (lr, lw) &&
       (rune_count p =? rc) && (rune_len r =? rl) && beqb (encode_rune r) enc
-  | CContract kind len ts =>
-      if kind =? 0 then valid_stream len ts else ordered_offsets ts
+  | CContract kind len ts => check_contract kind len ts
   | CTokenizer which trues input impl =>
       toks_eqb (model_tokenizer which trues input) impl && valid_stream (zlen input) impl
   | CFilter f len input impl =>
@@ -268,6 +287,8 @@ Definition check (c : case) : bool :=
       option_eqb beqb (format_html XText.html_before XText.html_after orig (mkFrag fs fe) ls) (Some html) &&
       option_eqb beqb (format_ansi ansi_color ansi_reset orig (mkFrag fs fe) ls) (Some ansi)
   | CHighlight style size orig locs impl => check_highlight style size orig locs impl
+  | CContractMany kind items => forallb (check_contract_item kind) items
+  | CHighlightMany items => forallb check_highlight_item items
   | CRan _ => true
   end.
 
@@ -280,6 +301,9 @@ Inductive expl :=
 | EDirect (frs : option (list (Z * Z))) (merged : list (option (Z * Z))) (html ansi : list (option bytes))
 | EFormat (html ansi : option bytes)
 | EHighlight (spec : bool) (dup : bool) (outs : option (list bytes))
+| EContractMany (bad : list contract_item)      (* the shapes that break the contract *)
+| EHighlightMany (bad : list (bytes * list (Z * Z) * option bytes * bool * option (list bytes)))
+    (* the items that fail: stored value, locations, fragment returned, spec verdict, model fragments *)
 | ENone.
 
 Definition explain (c : case) : expl :=
@@ -306,5 +330,15 @@ Definition explain (c : case) : expl :=
       let sorted := order_locs (map loc_of locs) in
       EHighlight (match impl with Some out => fragment_faithful style orig locs out | None => true end)
                  (has_dup_start sorted) (model_fragments style size orig sorted)
+  | CContractMany kind items =>
+      EContractMany (filter (fun it => negb (check_contract_item kind it)) items)
+  | CHighlightMany items =>
+      EHighlightMany
+        (map (fun it : hl_item =>
+                let '(HLI style size orig locs impl) := it in
+                (orig, locs, impl,
+                 match impl with Some out => fragment_faithful style orig locs out | None => true end,
+                 model_fragments style size orig (order_locs (map loc_of locs))))
+             (filter (fun it => negb (check_highlight_item it)) items))
   | CRan _ => ENone
   end.
